@@ -2,6 +2,7 @@
 import ast
 
 from ..extract import HEADER, Src, lean_list, lean_str
+from ..pyexpr import assignments, find_function, to_lean
 
 PIN_BOOL = ["TRUE", "ON", "YES", "1", "1.0", "T", "Y"]
 PIN_MAP = [["BOOLEAN", "bool"], ["BLOB", "bytes"], ["DATE", "datetime.date"], ["TIMESTAMP", "datetime.datetime"], ["TIME", "datetime.time"],
@@ -66,6 +67,68 @@ def generate(o):
             raise KeyError("factory shape")
         return [rounding, mins[0][1], mins[1][1]]
 
+    def factory_exprs():
+        """min(self.scale, 28), the exponent of the quantisation factor, the zero padding count, the context precision."""
+        fn = find_function(tl.tree, "__call__", "DecimalFactory")
+        env = {"self.scale": "scale", "self.precision": "precision", "safe_scale": "safe_scale"}
+        ss = assignments(fn, "safe_scale")
+        if len(ss) != 1:
+            raise KeyError("safe_scale = ...")
+        quant_scale = to_lean(ss[0][1], env)
+        fa = assignments(fn, "factor")
+        if len(fa) != 1 or not (isinstance(fa[0][1], ast.BinOp) and isinstance(fa[0][1].op, ast.Pow)
+                                and ast.unparse(fa[0][1].left) in ("decimal.Decimal('10')", "decimal.Decimal(10)")):
+            raise KeyError("factor = Decimal(10) ** <exp>")
+        quant_exp = to_lean(fa[0][1].right, env)
+        q = [n for n in ast.walk(fn) if isinstance(n, ast.Call) and isinstance(n.func, ast.Attribute) and n.func.attr == "quantize"]
+        if len(q) != 1 or ast.unparse(q[0].args[0]) != "factor" or ast.unparse(q[0].func.value) != "decimal_value":
+            raise KeyError("decimal_value.quantize(factor, ...)")
+        pads = assignments(fn, "value")
+        if len(pads) != 1:
+            raise KeyError("value += ...")
+        e = pads[0][1]  # value + ("." + "0" * <count>)
+        r = e.right
+        if not (isinstance(r, ast.BinOp) and isinstance(r.op, ast.Add) and ast.literal_eval(r.left) == "."
+                and isinstance(r.right, ast.BinOp) and isinstance(r.right.op, ast.Mult) and ast.literal_eval(r.right.left) == "0"):
+            raise KeyError('value += "." + "0" * <count>')
+        pad = to_lean(r.right.right, env)
+        guard = [n for n in ast.walk(fn) if isinstance(n, ast.If) and pads[0][0] in n.body]
+        if len(guard) != 1 or ast.unparse(guard[0].test) != "isinstance(value, str) and value.isdigit()":
+            raise KeyError("padding guard")
+        ctx = [n for n in ast.walk(fn) if isinstance(n, ast.Call) and ast.unparse(n.func) == "decimal.Context"]
+        if len(ctx) != 1:
+            raise KeyError("decimal.Context(...)")
+        kw = {k.arg: k.value for k in ctx[0].keywords}
+        prec = to_lean(kw["prec"], env)
+        cd = [n for n in ast.walk(fn) if isinstance(n, ast.Call) and isinstance(n.func, ast.Attribute) and n.func.attr == "create_decimal"]
+        if len(cd) != 1 or ast.unparse(cd[0].func.value) != "context":
+            raise KeyError("context.create_decimal(value)")
+        if "context" not in {k.arg for k in q[0].keywords} or ast.unparse({k.arg: k.value for k in q[0].keywords}["context"]) != "context":
+            raise KeyError("quantize(..., context=context)")
+        return [quant_scale, quant_exp, pad, prec]
+
+    def limit_exprs():
+        """`if length:` and the `[:stop]` slice of parse_varchar / parse_bytes."""
+        out = []
+        for f, var in (("parse_varchar", "varchar"), ("parse_bytes", "value")):
+            fn = ty.func(f)
+            ifs = [n for n in ast.walk(fn) if isinstance(n, ast.If) and "length" in ast.unparse(n.test)]
+            if len(ifs) != 1 or len(ifs[0].body) != 1 or ifs[0].orelse:
+                raise KeyError(f + ": if length")
+            t = ifs[0].test
+            test = "(length ≠ 0)" if (isinstance(t, ast.Name) and t.id == "length") else to_lean(t, {"length": "length"})
+            st = ifs[0].body[0]
+            if not (isinstance(st, ast.Assign) and ast.unparse(st.targets[0]) == var and isinstance(st.value, ast.Subscript)
+                    and ast.unparse(st.value.value) == var and isinstance(st.value.slice, ast.Slice)
+                    and st.value.slice.lower is None and st.value.slice.step is None and st.value.slice.upper is not None):
+                raise KeyError(f + ": %s = %s[:stop]" % (var, var))
+            # no other slicing of the value in the function
+            others = [n for n in ast.walk(fn) if isinstance(n, ast.Subscript) and isinstance(n.slice, ast.Slice) and n is not st.value]
+            if others:
+                raise KeyError(f + ": another slice")
+            out.append([test, to_lean(st.value.slice.upper, {"length": "length"})])
+        return out
+
     def length_tests():
         out = []
         for f in ("parse_varchar", "parse_bytes"):
@@ -76,12 +139,25 @@ def generate(o):
             out.append(len(ifs) == 1 and len(sl) == 1)
         return out
 
+    def array_shape():
+        """parse_array: `[parser(v) for v in x]` with `parser = element_type.parse`, no filter, no condition."""
+        fn = ty.func("parse_array")
+        comps = [n for n in ast.walk(fn) if isinstance(n, ast.ListComp)]
+        if len(comps) != 1:
+            raise KeyError("one list comprehension")
+        pa = [n for n in ast.walk(fn) if isinstance(n, ast.Assign) and ast.unparse(n.targets[0]) == "parser"]
+        if len(pa) != 1:
+            raise KeyError("parser = ...")
+        return [ast.unparse(comps[0]), ast.unparse(pa[0].value)]
+
+    ar = o.item("cast.array_comprehension", array_shape, ["[parser(v) for v in x]", "element_type.parse"])
     bs = o.item("cast.BOOLEAN_STRINGS", bools, [PIN_BOOL, PIN_BOOL])
     pm = o.item("cast.ORSO_TO_PYTHON_MAP", dmap("ORSO_TO_PYTHON_MAP"), PIN_MAP)
     pp = o.item("cast.ORSO_TO_PYTHON_PARSER", dmap("ORSO_TO_PYTHON_PARSER"), PIN_PARSER)
     dd = o.item("cast.decimal_defaults", dec_defaults, [38, 21])
     fa = o.item("cast.factory", factory, ["ROUND_HALF_EVEN", 3, 28])
-    lt = o.item("cast.length_truthiness", length_tests, [True, True])
+    fx = o.item("cast.expr.factory", factory_exprs, ["(min scale 28)", "(-safe_scale)", "(min scale 3)", "precision"])
+    lx = o.item("cast.expr.limit", limit_exprs, [["(length ≠ 0)", "length"], ["(length ≠ 0)", "length"]])
     pair = lambda p: "(%s, %s)" % (lean_str(p[0]), lean_str(p[1]))
     t = HEADER + "namespace Gen.Cast\n"
     t += "/-- text entries of BOOLEAN_STRINGS -/\ndef boolStrings : List String := %s\n" % lean_list(bs[0], lean_str)
@@ -89,8 +165,16 @@ def generate(o):
     t += "def pythonClass : List (String × String) := %s\n" % lean_list(pm, pair)
     t += "def parserOf : List (String × String) := %s\n" % lean_list(pp, pair)
     t += "def defaultPrecision : Nat := %d\ndef defaultScale : Nat := %d\n" % (dd[0], dd[1])
-    t += "def rounding : String := %s\ndef padZeros : Nat := %d\ndef maxQuantScale : Nat := %d\n" % (lean_str(fa[0]), fa[1], fa[2])
-    t += "/-- `if length:` guards a `[:length]` slice in parse_varchar / parse_bytes -/\n"
-    t += "def varcharLengthGuard : Bool := %s\ndef blobLengthGuard : Bool := %s\n" % tuple("true" if x else "false" for x in lt)
+    t += "/-- rounding mode of the factory's context -/\ndef rounding : String := %s\n" % lean_str(fa[0])
+    t += "/-- `safe_scale = ...` in DecimalFactory.__call__ -/\ndef quantScale (scale : Int) : Int := %s\n" % fx[0]
+    t += "/-- exponent of the quantisation factor `Decimal(10) ** ...` -/\ndef quantExp (safe_scale : Int) : Int := %s\n" % fx[1]
+    t += "/-- number of zeros appended to all-digit text: `\".\" + \"0\" * ...` -/\ndef padCount (scale : Int) : Int := %s\n" % fx[2]
+    t += "/-- `decimal.Context(prec=...)` -/\ndef contextPrec (precision : Int) : Int := %s\n" % fx[3]
+    for nm, (test, stop) in (("varchar", lx[0]), ("blob", lx[1])):
+        t += "/-- parse_%s: the test guarding the slice -/\ndef %sLimitTest (length : Int) : Prop := %s\n" % ("varchar" if nm == "varchar" else "bytes", nm, test)
+        t += "instance (length : Int) : Decidable (%sLimitTest length) := by unfold %sLimitTest; infer_instance\n" % (nm, nm)
+        t += "/-- …and the upper bound of `value[:stop]` -/\ndef %sStop (length : Int) : Int := %s\n" % (nm, stop)
+    t += "/-- parse_array's comprehension and the parser it applies (source text) -/\n"
+    t += "def arrayComprehension : String := %s\ndef arrayParser : String := %s\n" % (lean_str(ar[0]), lean_str(ar[1]))
     t += "end Gen.Cast\n"
     o.files["Cast.lean"] = t
